@@ -169,11 +169,11 @@ macro_rules! select_stage {
         }
     };
 }
-// @h props=C07,C04:t,C10 tier=quick family=S mem=10 timeout=2400 role=darray.select1.stage
+// @h props=C07,C04:t,C10 tier=quick family=S mem=5 timeout=2400 role=darray.select1.stage
 // @bound select on a 513..=1024-bit vector with symbolic contents and assembled inventories of two groups (each dense or sparse) whose touched entries satisfy the layout law; every k of the machine range
 // @funcs DArray::select, BitVector::get_word, utils::select_in_word
 select_stage!(c07_select1_stage, true, false);
-// @h props=C07,C04:t,C10 tier=quick family=S mem=10 timeout=2400 role=darray.select0.stage
+// @h props=C07,C04:t,C10 tier=quick family=S mem=5 timeout=2400 role=darray.select0.stage
 // @bound same for zeros (negated words, padding after the last bit never reported)
 // @funcs DArray::select, BitVector::get_word, utils::select_in_word
 select_stage!(c07_select0_stage, false, true);
